@@ -55,6 +55,23 @@ Proof. exact tcp_filler_flags. Qed.
 Theorem C05_tcp_flag_wiring : forall fl, tcp_layer_flags fc_tcp_layer_flag_sources fl = fl.
 Proof. exact tcp_layer_flags_id. Qed.
 
+(* the scan commands request these flag sets (table: arguments of withTCPPacketFillerOptions per command file; the
+   entry of tcp.go, the --flags command, is the loop over tcpPacketFlagOptions, next theorem) *)
+Theorem C05_tcp_scan_commands :
+  map (fun e => (fst e, flags_of_opts (snd e)))
+      (filter (fun e => negb (has_opt "..." (snd e))) fc_tcp_scan_options) =
+  [("tcp_fin.go", flagset_of_Z 1); ("tcp_null.go", flagset_of_Z 0); ("tcp_syn.go", flagset_of_Z 2);
+   ("tcp_xmas.go", flagset_of_Z (1 + 8 + 32))]%string.
+Proof. vm_compute. reflexivity. Qed.
+
+(* --flags: every accepted name selects the option that sets exactly the flag of that name *)
+Theorem C05_tcp_cli_flag_names :
+  map (fun e => (fst e, flags_of_opts [snd e])) fc_tcp_cli_flag_options =
+  [("ack", flagset_of_Z 16); ("cwr", flagset_of_Z 128); ("ece", flagset_of_Z 64); ("fin", flagset_of_Z 1);
+   ("ns", flagset_of_Z 256); ("psh", flagset_of_Z 8); ("rst", flagset_of_Z 4); ("syn", flagset_of_Z 2);
+   ("urg", flagset_of_Z 32)]%string.
+Proof. vm_compute. reflexivity. Qed.
+
 (* Fill fails exactly on requests outside the domain above *)
 Theorem C05_tcp_refuses : forall fl vpn q id sport sq,
   tcp_frame_with fl vpn q id sport sq = None <->
@@ -125,6 +142,24 @@ Theorem C05_icmp_any_override : forall o typ code p q r src dst,
     parse_icmp msg = Some {| cv_type := typ; cv_code := code; cv_csum_ok := true; cv_id := icmpid;
                              cv_seq := fc_icmp_seq; cv_payload := p |}.
 Proof. exact icmp_override_full. Qed.
+
+(* ------------------------------------------------------------------ command line plumbing of `sx icmp` / `sx udp` *)
+
+(* every packet option flag reaches the filler option of its own meaning (flag definition -> options field -> raw
+   string parser where there is one -> With* constructor); --payload is passed only when non-empty.  The tables are
+   translated from initCliFlags / parseRawOptions / getICMPOptions / getUDPOptions; that each With* stores into the
+   filler field Fill reads for the corresponding header field is checked by the translator itself. *)
+Theorem C05_cli_plumbing :
+  fc_icmp_cli_chain =
+    [("code", "WithCode", "", "always"); ("ipflags", "WithIPFlags", "parseIPFlags", "always");
+     ("iplen", "WithIPTotalLength", "", "always"); ("ipproto", "WithIPProtocol", "", "always");
+     ("payload", "WithPayload", "parsePacketPayload", "if-nonempty"); ("ttl", "WithTTL", "", "always");
+     ("type", "WithType", "", "always")]%string /\
+  fc_udp_cli_chain =
+    [("ipflags", "WithIPFlags", "parseIPFlags", "always"); ("iplen", "WithIPTotalLength", "", "always");
+     ("ipproto", "WithIPProtocol", "", "always"); ("payload", "WithPayload", "parsePacketPayload", "if-nonempty");
+     ("ttl", "WithTTL", "", "always")]%string.
+Proof. split; reflexivity. Qed.
 
 (* ------------------------------------------------------------------ ARP *)
 
@@ -245,11 +280,14 @@ Print Assumptions C05_checksum_all_lengths.
 Print Assumptions C05_tcp.
 Print Assumptions C05_tcp_filler_options.
 Print Assumptions C05_tcp_flag_wiring.
+Print Assumptions C05_tcp_scan_commands.
+Print Assumptions C05_tcp_cli_flag_names.
 Print Assumptions C05_tcp_refuses.
 Print Assumptions C05_udp.
 Print Assumptions C05_udp_any_override.
 Print Assumptions C05_icmp.
 Print Assumptions C05_icmp_any_override.
+Print Assumptions C05_cli_plumbing.
 Print Assumptions C05_arp.
 Print Assumptions C05_vpn_tcp.
 Print Assumptions C05_vpn_udp.
